@@ -196,6 +196,9 @@ def enc_msg(m, outer_form=None):
     parts = [ber.integer(m["id"]), enc_op(m)]
     if m.get("controls"):
         parts.append(ber.tlv(CONTEXT, True, 0, b"".join(enc_control(c) for c in m["controls"])))
+    if m.get("envelope_name") is not None:
+        # a [10] element in the envelope of ANY message kind (only meaningful for ExtendedResponse; to be ignored elsewhere)
+        parts.append(ber.octets(_s(m["envelope_name"]), CONTEXT, 10))
     if m.get("ms_adts") and m.get("t") == "ExtendedResponse" and m.get("name") is not None:
         # MS-ADTS NoticeOfDisconnectionLDAPMessage: responseName [10] at the envelope level (Active Directory)
         parts.append(ber.octets(_s(m["name"]), CONTEXT, 10))
